@@ -43,7 +43,7 @@ ASSUMPTIONS = {"C17": [
     "agreement across 4 sampled environments per batch; not all 2^64 hash seeds",
 ]}
 EXPECTED_PROBES = {"C17": ["api:reconf_forest", "api:agglom", "api:divide", "api:reconf", "api:anneal", "api:temper", "api:tree_slice",
-                           "api:rgreedy", "api:rand_equation", "api:get_subtree", "api:greedy_span", "env:hashseed_varied",
+                           "api:rgreedy", "api:rand_equation", "api:get_subtree", "api:greedy_span", "env:hashseed_varied", "probe:twice_on_same_object",
                            "env:pool_order_varied"]}
 
 
@@ -75,8 +75,13 @@ def _pool(rng):
 def gen_cases(rng):
     cases = []
 
-    def add(api, args=None, net=None, tree=False, pool=None, pre_sliced=None):
+    def add(api, args=None, net=None, tree=False, pool=None, pre_sliced=None, twice=False):
         c = {"id": f"{len(cases)}-{api}", "api": api, "seed": rng.randrange(2 ** 31), "args": args or {}}
+        if twice:
+            c["twice"] = True
+            c["id"] += "-twice"
+            if rng.random() < 0.7:
+                c["warm"] = {"subtree_size": rng.randint(3, 4), "maxiter": rng.randint(1, 3), "seed": rng.randrange(2 ** 31)}
         if net is not None:
             c["net"] = net
             if tree:
@@ -99,6 +104,16 @@ def gen_cases(rng):
     add("tree_slice", {"kw": rng.choice([{"target_size": 2 ** rng.randint(1, 4)}, {"target_slices": rng.choice([2, 4, 8])},
                                          {"target_overhead": 2.0, "temperature": 1.0}])}, mid(), tree=True)
     add("tree_slice", {"kw": {"target_size": 4, "temperature": 1.0, "max_repeats": 4}}, mid(), tree=True)
+    add("tree_slice", {"kw": {"target_slices": rng.choice([2, 4]), "allow_outer": rng.choice([False, "only"]), "temperature": rng.choice([0.01, 1.0])}},
+        _net(rng, 6, 9, plain=True), tree=True)
+    add("slicefinder", {"kw": {"target_slices": 4, "allow_outer": False, "temperature": 1.0}, "max_repeats": rng.randint(2, 6)}, mid(), tree=True)
+    # the same seeded call twice on one (warmed) object
+    add("tree_slice", {"kw": {"target_size": 2 ** rng.randint(1, 3), "temperature": 1.0}}, mid(), tree=True, twice=True)
+    add("reconf", {"kw": {"select": rng.choice(["max", "random"]), "subtree_search": rng.choice(["bfs", "random"]), "subtree_size": rng.randint(3, 4),
+                          "maxiter": rng.randint(2, 5)}}, mid(), tree=True, twice=True)
+    add("reconf_forest", {"kw": {"num_trees": 2, "num_restarts": rng.randint(1, 2), "subtree_maxiter": 3, "subtree_size": rng.randint(3, 4)}}, mid(), tree=True, twice=True)
+    add("anneal", {"kw": {"tsteps": 2, "numiter": 3}}, mid(), tree=True, twice=True)
+    add("temper", {"kw": {"tsteps": 2, "num_trees": 2, "numiter": 2}}, mid(), tree=True, twice=True)
     add("slicefinder", {"kw": {"target_size": 2 ** rng.randint(1, 4), "temperature": rng.choice([0.01, 1.0])}, "max_repeats": rng.randint(1, 6)}, mid(), tree=True)
     for select in ("max", "min", "random"):
         for search in ("bfs", "dfs", "random"):
@@ -168,7 +183,7 @@ def run_env(env, cases):
 def _shape_key(c):
     a = c.get("args", {})
     kw = a.get("kw", {})
-    return (c["api"], a.get("partitioner"), tuple(sorted(kw)) if isinstance(kw, dict) else None, bool(c.get("pool")),
+    return (c["api"], bool(c.get("twice")), a.get("partitioner"), tuple(sorted(kw)) if isinstance(kw, dict) else None, bool(c.get("pool")),
             kw.get("select") if isinstance(kw, dict) else None, kw.get("subtree_search") if isinstance(kw, dict) else None)
 
 
@@ -193,10 +208,25 @@ def run_case(prop, case):
     for c in cases:
         cid = c["id"]
         counters["api:" + c["api"]] += 1
+        if c.get("twice"):
+            counters["probe:twice_on_same_object"] += 1
         states.add(prng.H(_shape_key(c)))
         vals = [r.get(cid) for r in results]
         if ref.get(cid, "").startswith("EXC "):
             counters["case_raised:" + c["api"]] += 1
+        if c.get("twice") and not ref.get(cid, "").startswith("EXC "):
+            try:
+                same = json.loads(ref[cid]).get("same")
+            except Exception:
+                same = None
+            if same is False:
+                violations.append({
+                    "oracle": "seeded-result-depends-on-history",
+                    "detail": f"case {cid} (api {c['api']}, seed {c['seed']}, args {json.dumps(c.get('args'))[:200]}): the same seeded non-inplace call "
+                              f"issued twice on one tree object returned different results: {str(ref[cid])[:300]}",
+                    "sig": {"api": c["api"], "pool": bool(c.get("pool")), "case": cid, "envs": [0, 0], "partitioner": None},
+                })
+                continue
         if any(v != vals[0] for v in vals):
             j = next(i for i, v in enumerate(vals) if v != vals[0])
             violations.append({
@@ -221,6 +251,12 @@ def minimise(prop, case, v):
     """One case, two environments, then name the perturbation that matters."""
     cid = v["sig"]["case"]
     i, j = v["sig"]["envs"]
+    if v["oracle"] == "seeded-result-depends-on-history":
+        cs = [c for c in case["cases"] if c["id"] == cid]
+        small = {"seed": case["seed"], "cases": cs, "envs": [case["envs"][0]]}
+        r = run_case(prop, small)
+        vv = [x for x in r["violations"] if x["oracle"] == v["oracle"]]
+        return (small, vv[0]) if vv else (case, v)
     cs = [c for c in case["cases"] if c["id"] == cid]
     small = {"seed": case["seed"], "cases": cs, "envs": [case["envs"][i], case["envs"][j]]}
     r = run_case(prop, small)
